@@ -912,7 +912,13 @@ Unwind(v, h) ==
     LET d == TryDepth(v) IN
     IF d = 0 THEN [v EXCEPT !.status = "raised", !.frames = <<>>]
     ELSE LET f == v.frames[d]
-             a == [v EXCEPT !.frames = SubSeq(@, 1, d - 1), !.exc = "none", !.lastexc = v.exc]
+             \* a call that is left by an exception restores the pointer of its definition tape (try / finally in OP_CALL):
+             \* innermost dropped frame first, so that a tape entered recursively ends with its outermost saved pointer
+             RECURSIVE Restore(_, _)
+             Restore(w, i) == IF i < d THEN w
+                              ELSE LET g == v.frames[i] IN
+                                   Restore(IF g.kind = "def" THEN [w EXCEPT !.tapes[g.tid].pc = g.saved] ELSE w, i - 1)
+             a == [Restore(v, Len(v.frames)) EXCEPT !.frames = SubSeq(@, 1, d - 1), !.exc = "none", !.lastexc = v.exc]
              b == CacheList(a, <<69>>, <<h.etext>>)
          IN EnterBlock(b, f.xbody, "except", <<>>)
 
